@@ -109,6 +109,7 @@ struct Auto<'a> {
     errors: Vec<String>,
     keep_derives_off: Vec<String>,
     method_rewrites: Vec<(String, String, bool)>,
+    path_rewrites: Vec<(String, String)>,
 }
 
 impl<'a> Auto<'a> {
@@ -300,8 +301,22 @@ impl<'a, 'ast> Visit<'ast> for Auto<'a> {
     }
 
     fn visit_path(&mut self, p: &'ast syn::Path) {
+        let full: String = p.segments.iter().map(|s| s.ident.to_string()).collect::<Vec<_>>().join("::");
+        for (a, b) in self.path_rewrites.clone() {
+            if full == a {
+                // replace the segment idents only (generic arguments of the last segment are kept)
+                let st = self.src.range(p).0;
+                let en = self.src.range(&p.segments.last().unwrap().ident).1;
+                self.push((st, en), &b, "R5-path");
+                for seg in p.segments.iter() {
+                    self.visit_path_arguments(&seg.arguments);
+                }
+                return;
+            }
+        }
         let first = p.segments.first().map(|s| s.ident.to_string()).unwrap_or_default();
-        if first == "crate" || first == "super" {
+        let bare_module = MODULE_NAMES.contains(&first.as_str()) && first != "io" && p.segments.len() >= 2 && p.leading_colon.is_none();
+        if first == "crate" || first == "super" || bare_module {
             // strip `crate`/`super` and following module segments
             let mut keep_idx = 0;
             for (i, s) in p.segments.iter().enumerate() {
@@ -622,6 +637,7 @@ fn fn_edits(src: &Src, take: &Take, sig: &syn::Signature, block: &syn::Block, fn
     let idx = bv.idx;
     let body_open = src.span_range(block.brace_token.span.open()).0;
     let body_close = src.span_range(block.brace_token.span.close()).0;
+    let mut last_replaced: Option<(usize, usize)> = None;
     for sub in &take.subs {
         match sub {
             Sub::Contract(text) => {
@@ -695,8 +711,17 @@ fn fn_edits(src: &Src, take: &Take, sig: &syn::Signature, block: &syn::Block, fn
                 }
             }
             Sub::Replace(anchor, text) => {
+                last_replaced = None;
                 if let Some(r) = find_anchor_opt(&idx, anchor, fname, missing)? {
                     edits.push(Edit { start: r.0, end: r.1, text: text.trim_end().to_string(), rule: "R8-replace-stmt", label: Some(format!("{}::r8", fname)), prio: 0 });
+                    last_replaced = Some(r);
+                }
+            }
+            Sub::ReplacedText(exp) => {
+                if let Some(r) = last_replaced {
+                    if norm(src.slice(r)) != norm(exp) {
+                        return Err(format!("{}: the statement replaced by an R8 stub no longer has the expected text (line {}); the stub's contract is not justified for the new text", fname, src.line_of(r.0)));
+                    }
                 }
             }
             Sub::ForToLoop(n, text) => {
@@ -737,6 +762,7 @@ fn do_extract(args: &BTreeMap<String, String>) -> Result<(), String> {
     let mut em = Emitter { lines: vec![], rules: BTreeMap::new(), functions: vec![], trusted: vec![], missing_anchors: vec![], unknown_calls: vec![] };
     let mut unit = String::new();
     let mut method_rewrites: Vec<(String, String, bool)> = Vec::new();
+    let mut path_rewrites: Vec<(String, String)> = Vec::new();
     // ---- L2 pre-pass: registry of skeletonised functions ("Type::fn" -> (skeleton name, returns Result))
     let mut skel_cfg = skel::Cfg::default();
     let mut registry: BTreeMap<String, (String, bool)> = BTreeMap::new();
@@ -783,6 +809,7 @@ fn do_extract(args: &BTreeMap<String, String>) -> Result<(), String> {
             Dir::Raw(t) => em.raw(t, Some("raw")),
             Dir::RewriteMethod(a, b, c) => method_rewrites.push((a.clone(), b.clone(), *c)),
             Dir::SkelCfg(_) => {}
+            Dir::RewritePath(a, b) => path_rewrites.push((a.clone(), b.clone())),
             Dir::Source(p) => {
                 if !srcs.contains_key(p) {
                     srcs.insert(p.clone(), Src::load(repo, p)?);
@@ -898,7 +925,7 @@ fn do_extract(args: &BTreeMap<String, String>) -> Result<(), String> {
                     *em.rules.entry("L2-skeleton".to_string()).or_insert(0) += 1;
                     continue;
                 }
-                let mut auto = Auto { src, edits: vec![], errors: vec![], keep_derives_off: take.drop_derives.clone(), method_rewrites: method_rewrites.clone() };
+                let mut auto = Auto { src, edits: vec![], errors: vec![], keep_derives_off: take.drop_derives.clone(), method_rewrites: method_rewrites.clone(), path_rewrites: path_rewrites.clone() };
                 let mut edits: Vec<Edit> = vec![];
                 let (range, header, footer): ((usize, usize), String, String);
                 match found {
